@@ -196,7 +196,7 @@ def export_to_csv(
 
     if export_seg:
         # Determine maximum value in the column to assign bit depth
-        max_val = int(df[column_map["track_id"]].max())
+        max_val = int(df[column_map["track_id"]].max()) if len(df) > 0 else 0
 
         # Pick dtype based on max_val
         if max_val <= np.iinfo(np.uint8).max:
